@@ -31,6 +31,18 @@ CLAIMED = {
     text='Symbolic execution of the real retry loop with a solver-chosen fault at every objective call: all 4^k patterns of up to 5 calls of one design (including exactly four and exactly five consecutive failures, witnessed) and batches; replacement designs come from the real gen_vector/gen_number with random() symbolic. Failed-list contents, final costs/vector/state, exception propagation and the in-bounds clause are SMT obligations per path.',
     note='one design all patterns; batches of 2 (<=3 faults quick, all thorough); round() modelled as nearest integer (superset of half-even); failures in worker threads outside',
     ref='DESIGN.md section 5 C06'),
+ 'C08': dict(
+    text='Symbolic execution of SBX, polynomial / uniform / non-uniform mutation, clip, the swarm turbulence operators, gen_number / gen_vector / RandomGenerator and the value mapping of every DOE generator with a SYMBOLIC box, parents anywhere in the closed box and every random draw, probability, distribution index and iteration symbolic: every returned coordinate inside the box (up to the declared precision for samplers) on every path; in the *-domain configurations additionally no pow() on a negative base and no zero divisor is feasible (no complex number / exception can reach clip). The swarm position update is covered by C18; the whole-run clause holds by composition with the C09 skeletons (assume-guarantee, stated in the evidence).',
+    note='dimension <=2 quick / <=3 thorough (domain: 1 coordinate); floats as reals; box configurations havoc nonlinear intermediates (sound: the final clip establishes containment); integer/boolean parameters and SimpleMutator/SimpleCrossover outside',
+    ref='DESIGN.md section 5 C08'),
+ 'C12': dict(
+    text='LHS: the real lhs/_lhsclassic/build_lhs/LHSGenerator run on NumPy object arrays with symbolic draws and every permutation as a path; exactly one sample per stratum is an SMT obligation for all draws and all boxes. Halton: the per-index loop body of _van_der_corput is cut out of the current source (AST) and run on a symbolic index in digit form, proving the radical-inverse law for EVERY index below b^K; generator output = independent radical-inverse oracle scaled to symbolic bounds. Uniform grid and random generator with symbolic bounds.',
+    note='LHS N<=3 quick / N<=4 thorough; digit law bases 2..7 quick / 2..13 thorough with bounded digit counts; Halton unit samples compared at 1e-12; floats as reals',
+    ref='DESIGN.md section 5 C12'),
+ 'C13': dict(
+    text='Per enumerated configuration the real generators run with symbolic bounds / symbolic pairwise-distinct level values; the structure laws (every combination exactly once; PB: only the two bounds, run count, balanced and pairwise orthogonal columns for n=1..23; BB: every corner of every factor pair once plus one centre; GSD: duplicate-free subset, complementary designs pairwise disjoint and exhaustive, also through GSDGenerator) are SMT obligations over the cell terms for all level values.',
+    note='configurations enumerated (integer inputs of NumPy/SciPy kernels), values symbolic; sizes as listed in the evidence bounds',
+    ref='DESIGN.md section 5 C13'),
  'C14': dict(
     text='Symbolic execution of the real WorstCaseEvaluator / GradientEvaluator through Algorithm.evaluate over several consecutive batches with an uninterpreted objective, symbolic design vectors and tolerances: neighbour construction, the extra objective, cost-vector lengths after every batch for every design seen so far, call counts per batch, forward-difference quotient and work-list reset are SMT obligations (all objective functions, all tolerances).',
     note='dim<=2 quick / <=3 thorough, <=4 consecutive batches; reals for x+tol and the quotient; evaluate_scalar variants outside',
